@@ -120,6 +120,10 @@ func OpaqueJoinLines(l []string) string {
 //@   params elems sep
 //@   results r
 //@   ensures implies(sep == "\n", r == OpaqueJoinLines(elems))
+//@   ensures implies(len(elems) == 0, r == "")
+//@   ensures implies(len(elems) == 1, r == elems[0])
+//@   ensures implies(len(elems) == 2, r == elems[0]+sep+elems[1])
+//@   ensures implies(len(elems) == 3, r == elems[0]+sep+elems[1]+sep+elems[2])
 
 //@ extern bytes.TrimLeft
 //@   params s cutset
